@@ -230,10 +230,22 @@ def run_case(rng, tier, idx):
             ev, vecs = obs[-1]['result']
         else:
             p.num_eigvalues = k
-            p.freq(silent=True, sparse_solver=sparse, sort=sort)
+            atype = 4
+            if rng.random() < 0.5:
+                # pre-stressed frequencies (atype 3: k0 + kG0) under a sub-critical pre-load: still a definite pencil
+                N = np.array([-1.0, float(rng.choice([0.0, -0.5, 0.4])), float(rng.choice([0.0, 0.3]))])
+                p.Nxx, p.Nyy, p.Nxy = [float(x) for x in N]
+                lam_pos = eig.ref_buckling(K, p.calc_kG0(silent=True))[0]
+                if lam_pos.size:
+                    N = N * float(rng.uniform(0.1, 0.8)) * float(lam_pos.min())
+                    p.Nxx, p.Nyy, p.Nxy = [float(x) for x in N]
+                    atype = 3
+                    c.desc['preload'] = [float(x) for x in N]
+            c.tag('atype:%d' % atype)
+            p.freq(atype=atype, silent=True, sparse_solver=sparse, sort=sort)
             c.hit('Panel.freq')
             ev, vecs = p.eigvals, p.eigvecs
-            K, M = p.k0, p.kM
+            K, M = (p.k0 if atype == 4 else p.k0 + p.kG0), p.kM
     except Exception as e:
         return c.reject('%s in %s: %s' % (type(e).__name__, mode, str(e)[:100]))
     ref = judge(c, K, M, ev, vecs, mode, sort, k, sparse)
